@@ -1,6 +1,6 @@
 """C01 (record-keeping clauses, modular): Builder::FinishCommand and Builder::StartEdge (props/builderunit.py)."""
 from engine.selftest import subst
-from props import builderjobs
+from props import builderjobs, scanjobs
 
 ID = "C01"
 USES_CPP = True
@@ -13,7 +13,9 @@ MANIFEST = {
                 "and is picked up by the next run), except for restat/generator rules and an unknown start time, where it carries the newest of that and the outputs' own times; "
                 "the dependencies a deps command reported are recorded for EVERY output with the output's mtime, also when restat left the output untouched; a failed command or a failed "
                 "dependency extraction records nothing. Builder::StartEdge takes the start time (lock file touched, then stat-ed) before starting the command. "
-                "NOT decided: the dirty computation that consumes these records (RecomputeNodeDirty / RecomputeOutputDirty, C++17), depfile/dyndep loading, 'equals a clean build' as a whole-history statement.",
+                "Scan side (DependencyScan::RecomputeNodeDirty, real text, callees by contract): every output of a statement is marked dirty exactly when a declared or discovered input, an output check or "
+                "missing dependency information says so; validation targets are collected; recorded dependencies are loaded on the first visit - except, KNOWN FINDING (listed under C10), when the statement is already dirty. "
+                "NOT decided: RecomputeOutputDirty / RecomputeEdgesInputsDirty themselves (C++17), depfile/dyndep loading, 'equals a clean build' as a whole-history statement.",
         "design_ref": "DESIGN.md 5 C01",
     },
     "level_note": "trusted: " + "; ".join(builderjobs.TRUST),
@@ -22,7 +24,7 @@ MANIFEST = {
 
 
 def jobs(tier, mutant=None):
-    return builderjobs.select(tier, ["B1", "B2"], r'\bC01\b', mutant)
+    return builderjobs.select(tier, ["B1", "B2"], r'\bC01\b', mutant) + scanjobs.select(tier, ["S1"], r'\bC01\b', mutant)
 
 
 def _m(target, old, new):
@@ -36,6 +38,8 @@ MUTANTS = [
     ("output_mtime_recorded_for_normal_rules", _m("FinishCommand", "if (record_mtime == 0 || restat || generator) {", "if (true) {")),
     ("restat_ignores_newer_outputs", _m("FinishCommand", "if (new_mtime > record_mtime)\n          record_mtime = new_mtime;", "")),
     ("start_time_after_command", _m("StartEdge", "  edge->command_start_time_ = build_start;\n", "")),
+    ("only_requested_output_marked_dirty", _m("RecomputeNodeDirty", "    for (auto o : edge->outputs_)\n      o->MarkDirty();", "    node->MarkDirty();")),
+    ("validations_dropped", _m("RecomputeNodeDirty", "  validation_nodes->insert(validation_nodes->end(),\n      edge->validations_.begin(), edge->validations_.end());\n", "")),
     ("first_output_deps_only", _m("FinishCommand", "         o != edge->outputs_.end(); ++o) {\n      TimeStamp deps_mtime", "         o != edge->outputs_.begin() + 1; ++o) {\n      TimeStamp deps_mtime")),
 ]
 
@@ -49,11 +53,11 @@ def replay(job, ob, vals, scratch):
 
 def describe(tier):
     return {
-        "functions": ["build.cc:Builder::FinishCommand", "build.cc:Builder::StartEdge"],
+        "functions": ["build.cc:Builder::FinishCommand", "build.cc:Builder::StartEdge", "graph.cc:DependencyScan::RecomputeNodeDirty"],
         "checker_cmd": "goto-cc -std=c++11 unit.cc (slices + stubs + harness); cbmc a.gb --unwind N --unwinding-assertions + checks",
-        "trusted_base": builderjobs.TRUST,
+        "trusted_base": builderjobs.TRUST + scanjobs.TRUST,
         "bounds": {t: "edges with 1-2 outputs; all flags, statuses, times and callee failures symbolic" for t in ("quick", "thorough")},
-        "assumptions": builderjobs.ASSUME,
+        "assumptions": builderjobs.ASSUME + scanjobs.ASSUME,
         "silent": ["dirty computation (RecomputeNodeDirty/RecomputeOutputDirty)", "depfile / deps-log / dyndep loading", "manifest regeneration, interrupted builds, histories"],
         "explanation": "Postcondition of FinishCommand over a ghost event log (what was recorded, with which mtime, in which order), derived from the C01 statement's record-keeping sentences.",
     }
